@@ -200,6 +200,27 @@ def extreme_canvas_sprites(rng: random.Random, n: int) -> List[Tuple[dict, bytes
     return out
 
 
+def many_layer_files(rng: random.Random) -> List[Tuple[str, bytes]]:
+    """sprites with more than 256 (and more than 65536 / 256) layers and several frames, every cel a different colour: a result
+    that depends on a truncated or packed (frame, layer) pair shows up as one cel rendering another cel's pixels"""
+    out = []
+    for nl, nf in [(257, 2), (258, 3), (513, 2), (300, 257)]:
+        frames = []
+        for f in range(nf):
+            chunks: List[ase.Chunk] = []
+            if f == 0:
+                chunks += [ase.LayerChunk(flags=1, blend=0, opacity=255, name="L%d" % l) for l in range(nl)]
+            ls = sorted(set(list(range(min(6, nl))) + [nl - 1, nl - 2, 255 % nl, 256 % nl]))
+            if nf > 10 and f not in (0, 1, 2, 255, 256, nf - 1):
+                ls = []
+            for l in ls:
+                px = bytes([(l * 7 + f * 31) & 255, ((l >> 8) * 80 + 3 * f) & 255, (l * 13 + f) & 255, 255] * 4)
+                chunks.append(ase.CelChunk(layer=l, w=2, h=2, pixels=px, ctype_cel=0))
+            frames.append(ase.Frame(chunks=chunks))
+        out.append(("%d layers x %d frames, distinct colours per cel" % (nl, nf), ase.serialize(ase.Sprite(width=2, height=2, frames=frames))))
+    return out
+
+
 def small_corpus(limit: int) -> List[str]:
     return [p for p in corpus_files() if os.path.getsize(p) <= limit]
 
@@ -1115,8 +1136,13 @@ def check_C14(tier: str, seed: int) -> int:
         for name, data in special_files(rng)[2:10]:
             bases.append(("special:" + name, data, w.put(data)))
         cases: List[Tuple[str, str, str, tuple]] = []     # (case line, base, kind, args)
+        consumed_of: Dict[str, int] = {}
         for name, data, path in bases:
             n = len(data)
+            try:
+                consumed_of[name] = end_of_last_frame(data)
+            except Exception:
+                consumed_of[name] = 0
             cases.append(("%s plain" % path, name, "plain", ()))
             cases.append(("%s one" % path, name, "one", ()))
             for k in range(8 if tier == "quick" else 60):
@@ -1132,6 +1158,11 @@ def check_C14(tier: str, seed: int) -> int:
             for off in list(range(0, n + 2, step)):
                 kind = IOKINDS[(off + len(cases)) % len(IOKINDS)]
                 cases.append(("%s hard %d %d" % (path, off, kind), name, "hard", (off, kind)))
+            # transient faults: the error is reported once, later reads would succeed again; it must still be returned
+            for off in sorted(set([0, 1, 4, 127, 128, 129, n // 2, n - 1, n] + [rng.randrange(0, n + 1) for _ in range(6 if tier == "quick" else 40)])):
+                if 0 <= off <= n:
+                    kind = [7, 10, 7, 10, 5, 9][(off + len(cases)) % 6]          # TimedOut, WouldBlock, BrokenPipe, Other
+                    cases.append(("%s once %d %d" % (path, off, kind), name, "hard", (off, kind)))
         lines = [c[0] for c in cases]
         ib = run_sched([vplib.impl_driver("release"), "sched"], lines, w.dir, "isched", False)
         mb = run_sched([vplib.MODEL_DRIVER, "sched"], lines, w.dir, "msched", True)
@@ -1161,6 +1192,11 @@ def check_C14(tier: str, seed: int) -> int:
                 if not (ok_same or is_ioerr):
                     direct_fail.append({"what": "an injected I/O error came back neither as the plain result nor as IoError carrying that error",
                                         "case": line, "got": bi[0][:3], "plain": pi[0][:3]})
+                elif outcome(pi) == 0 and off < consumed_of[name] and not is_ioerr:
+                    # the loader needs the bytes up to the end of the last frame: an error reported before that must come back
+                    direct_fail.append({"what": "the reader reported an I/O error at offset %d, before the needed data (%d bytes) was delivered, "
+                                                "but loading did not return that error" % (off, consumed_of[name]),
+                                        "case": line, "got": bi[0][:3]})
                 if io == 0 and outcome(pi) != 0:
                     direct_fail.append({"what": "a sprite was returned although the plain load fails", "case": line})
             # model vs implementation: same outcome, same error kind, same observation hash
@@ -1172,7 +1208,8 @@ def check_C14(tier: str, seed: int) -> int:
             "rule": "per base file (%d files: generated, small corpus, malformed): one byte at a time; random partitions of the byte stream (xorshift, "
                     "max sizes 1..4096) with and without an Interrupted result before every read; BufReader capacities 1/7/8192, Cursor, chained "
                     "reader, read_file on the path; a hard I/O error of rotating kind (10 kinds) at every byte offset (every third offset for files "
-                    "above 400 bytes in the quick tier); non-trivial = not the plain read" % len(bases),
+                    "above 400 bytes in the quick tier); transient faults (reported once, TimedOut / WouldBlock / BrokenPipe / Other) at boundary and random "
+                    "offsets; non-trivial = not the plain read" % len(bases),
             "samples": lines[:2] + lines[-2:], "schedule_kinds": dict(kinds),
             "correspondence_disagreements": len(corr_fail), "direct_failures": len(direct_fail)})
         v.assumptions = ["BufReader, the file system and byteorder are std/third-party code observed, not modelled; the theorems are about any reader "
@@ -2186,6 +2223,8 @@ def check_C16(tier: str, seed: int) -> int:
             items.append((w.put(data), "generated"))
         for s, data in extreme_canvas_sprites(rng, 12 if tier == "quick" else 100):
             items.append((w.put(data), "tilemap sprite with canvas %dx%d" % (s["width"], s["height"])))
+        for desc, data in many_layer_files(rng):
+            items.append((w.put(data), desc))
         stream = corruption_stream(rng, "quick", w, scale=0.08 if tier == "quick" else 0.5)
         pre = vplib.impl_observe("release", [p for p, _ in stream], w.dir, 0, mem_kb=2 * 1024 * 1024)
         loadable = [stream[i] for i in range(len(stream)) if outcome(pre[i]) == 0]
